@@ -345,4 +345,19 @@ PROPS = {
                                     "stream-vs-buffer", "lazy-vs-eager", "laziness", "reader:One", "reader:Random"]},
         "min_evals": {"quick": 200_000, "thorough": 5_000_000},
     },
+    "C20": {
+        "quick": [phase(16, 1.0, 60)],
+        "thorough": [phase(16, 1.0, 900)],
+        "rule": ("(a) precedence, complete: all 2^8 presence subsets of dis, disMacro, disKey, name, def, tag, navName, id x 12 value-kind "
+                 "variants (Str, empty Str, Ref with/without dis, Number, Bool, Marker, Uri, Symbol, Null, List, random Unicode), with and "
+                 "without a default, through dict_to_dis (with a localisation table) and Dict::dis(); (b) macro patterns: concatenations of "
+                 "0-8 pieces from {'$','{','}','<','>', identifiers of 1-8 chars, '$a' '${a}' '${ab}' '$<k>' '$<x>' '$$' '${' '$<', space, "
+                 "non-ASCII} with a random subset of the tags present; (c) arbitrary Unicode patterns. oracle = the eight-tag chain and a "
+                 "hand-written left-to-right macro scanner (harness/src/mon_c20.rs): '$tag' = maximal identifier, '${tag}', '$<key>', "
+                 "unresolved or malformed stays verbatim, substituted text is not re-scanned; text without '$' unchanged; no panic. "
+                 "non-trivial = pattern contains '$'"),
+        "assumptions": ["display text of a non-Str, non-Ref value is the library's own Display (that text is C10's concern)"],
+        "require_strata": {"both": ["precedence", "macro:brace", "macro:angle", "macro:plain", "macro:no-dollar", "macro-unicode"]},
+        "min_evals": {"quick": 200_000, "thorough": 10_000_000},
+    },
 }
